@@ -248,6 +248,7 @@ pub fn run(mon: &mut Monitor, args: &Args) {
         crate::c20v::documented_violations(mon, on);
         crate::c20v::normalize_windows(mon);
         crate::c20v::valid_boundaries(mon);
+        crate::c20v::inverse_is_affine(mon);
     }
 }
 
